@@ -94,6 +94,7 @@ PROPS = {
         jobs=[
             J("rsec16", "C12_params", bound="every total length 0..2^62, every goroutine count 1..2^31, symbolic worker index; min 16, divisor 16"),
             J("rsec16", "C12_params_out", bound="same with min 1, divisor 1 (applyMatrixParallelOut)"),
+            J("rsec16", "C12_partition_symbolic", bound="the real applyMatrixParallelData and worker closures on buffers of symbolic even length 2..2^61 (no contents), 1..4 requested goroutines: worker ranges consecutive, non-empty, covering; WaitGroup count = workers"),
             J("rsec16", "C12_parallel_data", bound="shard length 2..24 bytes, goroutines 1..4, 2x2 symbolic matrix, symbolic data, forward and reverse task order"),
             J("rsec16", "C12_parallel_data_long", bound="shard length 26..64 bytes, goroutines 1..6 (2..4 workers, clamped last chunk)"),
             J("rsec16", "C12_parallel_out", bound="shard length 2..6 bytes, goroutines 1..3"),
@@ -149,6 +150,7 @@ PROPS = {
             J("par2", "C15_getFilePath", bound="names of 0..3 bytes, relative index path"),
             J("par2", "C15_newEncoder", bound="input paths '/'+0..4 symbolic bytes against base /a", must_reach=["accepted"]),
             J("par1", "C15_par1_names", bound="PAR1: declared names of 1..4 symbolic bytes over { . / \\ a }, file missing, one volume", must_reach=["written"]),
+            J("par2", "C15_repair_names", bound="fully repairable archive whose declared name is 1..4 symbolic bytes over { . / a }, file missing: every path read or written"),
         ],
     ),
     "C16": dict(
@@ -254,6 +256,8 @@ PROPS = {
             J("par2", "C19_missing_packets", bound="each mandatory packet type removed / main duplicated"),
             J("par2", "C19_file_hash", bound="declared whole-file MD5 = 16 arbitrary bytes, valid recovery blocks 0 and 1, data file missing", must_reach=["written", "rejected"]),
             J("par1", "C19_par1_fields", bound="PAR1: volume number, file count, list size, data offset, data size, entry size, file length at boundary values in the index or a volume, control hash recomputed"),
+            J("par2", "C19_ifsc_count", bound="1..4 checksum pairs for a 2-slice file; data present / missing / first slice damaged; valid recovery blocks"),
+            J("par2", "C19_id_lists", bound="2 files; id list sorted / unsorted / duplicated / short / long; recovery-set count 0..4; either file missing"),
         ],
     ),
 }
